@@ -301,9 +301,81 @@ func filterStructure(p *core.Program, r *core.Report, rule string, fn *ssa.Funct
 	}
 	bad := ""
 	nsign, nbound := 0, 0
+	// the comparisons that decide a branch: the condition itself, or - when the condition is a call of a predicate
+	// function of the package - the comparisons of that function with the call's arguments put in for its parameters
+	type branchCmp struct {
+		c    eng.Cmp
+		negX bool // the left operand is the negation of c.X
+		pos  token.Pos
+	}
+	var cmps []branchCmp
 	for _, b := range fn.Blocks {
 		ifi := eng.BlockIf(b)
 		if ifi == nil {
+			continue
+		}
+		cond := ifi.Cond
+		for {
+			u, isU := cond.(*ssa.UnOp)
+			if !isU || u.Op != token.NOT {
+				break
+			}
+			cond = u.X
+		}
+		if call, isCall := cond.(*ssa.Call); isCall {
+			h := call.Call.StaticCallee()
+			if h != nil && h.Pkg == fn.Pkg && len(h.Blocks) > 0 && len(h.Params) == len(call.Call.Args) {
+				subst := func(v ssa.Value) (ssa.Value, bool, bool) {
+					neg := false
+					if u, isU := v.(*ssa.UnOp); isU && u.Op == token.SUB {
+						v, neg = u.X, true
+					}
+					if _, isC := v.(*ssa.Const); isC {
+						return v, neg, true
+					}
+					for i, q := range h.Params {
+						if ssa.Value(q) == v {
+							return call.Call.Args[i], neg, true
+						}
+					}
+					return nil, false, false
+				}
+				n0 := len(cmps)
+				okAll := true
+				for _, hb := range h.Blocks {
+					for _, hin := range hb.Instrs {
+						bo, isB := hin.(*ssa.BinOp)
+						if !isB {
+							continue
+						}
+						switch bo.Op {
+						case token.EQL, token.NEQ, token.LSS, token.LEQ, token.GTR, token.GEQ:
+						default:
+							okAll = false
+							continue
+						}
+						x, nx, okx := subst(bo.X)
+						y, ny, oky := subst(bo.Y)
+						if !okx || !oky || ny {
+							okAll = false
+							continue
+						}
+						cmps = append(cmps, branchCmp{eng.Cmp{Op: bo.Op, X: x, Y: y}, nx, ifi.Pos()})
+					}
+				}
+				if okAll && len(cmps) > n0 {
+					continue
+				}
+				cmps = cmps[:n0]
+			}
+		}
+		// a phi of comparisons (`a && b` evaluated as a value) is decided by the blocks that compute its edges
+		if phi, isPhi := cond.(*ssa.Phi); isPhi {
+			for _, e := range phi.Edges {
+				if pc, _, okc := eng.AsCmp(e); okc {
+					cmps = append(cmps, branchCmp{pc, false, ifi.Pos()})
+				}
+			}
 			continue
 		}
 		c, _, ok := eng.AsCmp(ifi.Cond)
@@ -311,6 +383,10 @@ func filterStructure(p *core.Program, r *core.Report, rule string, fn *ssa.Funct
 			bad = "branch at " + p.Pos(ifi.Pos()) + " is not a comparison"
 			continue
 		}
+		cmps = append(cmps, branchCmp{c, false, ifi.Pos()})
+	}
+	for _, bc := range cmps {
+		c := bc.c
 		isFactorV := func(v ssa.Value) bool {
 			for _, pr := range []ssa.Value{detleft, detright} {
 				if bo, ok := pr.(*ssa.BinOp); ok && (v == bo.X || v == bo.Y) {
@@ -329,8 +405,10 @@ func filterStructure(p *core.Program, r *core.Report, rule string, fn *ssa.Funct
 			// the magnitude test on detsum (the guards added by the robustness repair 0a8a348)
 		case errbound != nil && c.Y == errbound && c.Op == token.GEQ && (c.X == det || isNeg(c.X, det)):
 			nbound++
+		case bc.negX && !(errbound != nil && c.Y == errbound && c.X == det):
+			bad = fmt.Sprintf("branch at %s compares the negation of %s with %s", p.Pos(bc.pos), c.X.Name(), c.Y.Name())
 		default:
-			bad = fmt.Sprintf("branch at %s compares %s with %s: the filter's case split must compare detleft/detright with 0 and +-det with errbound (a derived quantity such as a product of the two can underflow or overflow)", p.Pos(ifi.Pos()), c.X, c.Y)
+			bad = fmt.Sprintf("branch at %s compares %s with %s: the filter's case split must compare detleft/detright with 0 and +-det with errbound (a derived quantity such as a product of the two can underflow or overflow)", p.Pos(bc.pos), c.X, c.Y)
 		}
 	}
 	r.Check(bad == "" && nsign >= 4 && nbound == 2, rule, short(fn)+"/case-split", p.Pos(fn.Pos()), true, fmt.Sprintf("%d sign tests on detleft/detright, 2 error-bound tests", nsign), func() string {
